@@ -184,6 +184,78 @@ def is_result_map_ty(F, ti):
     return "HashMap<" in s and ("PduMetadata" in s or "FrameMetadata" in s)
 
 
+def _recv_place(body, o):
+    """The place a receiver operand refers to: the operand is (a copy / move of) a temporary defined once as `&[mut] place`."""
+    import json
+    pl = o.get("c") or o.get("m")
+    for _ in range(4):
+        if pl is None or pl["p"]:
+            return None
+        defs = []
+        for blk in body["blocks"]:
+            for st_ in blk["stmts"]:
+                if st_["k"] == "assign" and st_["p"]["l"] == pl["l"] and not st_["p"]["p"]:
+                    defs.append(st_["rv"])
+        if len(defs) != 1:
+            return None
+        rv = defs[0]
+        if rv["k"] == "ref":
+            q = rv["p"]
+            if q["p"] == ["*"]:  # a reborrow of another reference: follow it
+                pl = {"l": q["l"], "p": []}
+                continue
+            return (q["l"], json.dumps(q["p"], sort_keys=True))
+        if rv["k"] == "use":
+            pl = rv["a"].get("c") or rv["a"].get("m")
+            continue
+        return None
+    return None
+
+
+def guarded_insert(F, body, bi):
+    """`if !map.contains_key(&k) { map.insert(k, v) }` (or `match map.get(&k) { None => { map.insert(..) } .. }`): the
+    insert at block `bi` is reached only through the *absent* outcome of a membership test on the same map — it keeps the
+    first definition exactly like the vacant arm of the entry API."""
+    from rules import lib_loop
+    from rules.common import op_local
+    t = body["blocks"][bi]["term"]
+    if not t.get("args"):
+        return False
+    m = _recv_place(body, t["args"][0])
+    if m is None:
+        return False
+    dom, _ = cfg.dominators(body)
+    ddefs = lib_loop.discr_defs(body)
+    for di, blk in enumerate(body["blocks"]):
+        if blk["cleanup"] or di == bi or di not in dom.get(bi, ()):
+            continue
+        f = cfg.callee_of(blk["term"])
+        if not f or not re.search(r"HashMap::<.*>::(contains_key|get|get_key_value)$", cfg.fn_target(f)):
+            continue
+        tt = blk["term"]
+        if not tt.get("args") or _recv_place(body, tt["args"][0]) != m or tt["dest"]["p"]:
+            continue
+        dl = tt["dest"]["l"]
+        is_bool = cfg.fn_target(f).endswith("contains_key")
+        # the switch that decides on the outcome: on the bool itself, or on the discriminant of the Option
+        for si, sb in enumerate(body["blocks"]):
+            st_ = sb["term"]
+            if st_["k"] != "switch" or si not in dom.get(bi, ()) or di not in dom.get(si, ()):
+                continue
+            sl = op_local(st_["d"])
+            hit = (is_bool and sl == dl) or (not is_bool and sl is not None and any(pl["l"] == dl and not pl["p"] for pl in ddefs.get(sl, [])))
+            if not hit:
+                continue
+            absent = st_["otherwise"]
+            for v, tg in zip(st_["vals"], st_["tgts"]):
+                if int(v) == 0:
+                    absent = tg
+            present = [x for x in list(st_["tgts"]) + [st_["otherwise"]] if x != absent]
+            if absent in dom.get(bi, ()) and not any(x in dom.get(bi, ()) for x in present):
+                return True
+    return False
+
+
 def first_wins(ctx):
     """Type-based: any write-capable HashMap method whose map type is one of the three result maps, anywhere in the
     module, must be entry(); the entry() calls are not executed inside the loop over the input files."""
@@ -220,7 +292,11 @@ def first_wins(ctx):
             if not touches:
                 continue
             fl, ln = loc_of(blk)
-            if MAP_DENY.search(tgt) or MAP_DENY.search(f["path"]):
+            if re.search(r"HashMap::<.*>::insert$", tgt) and guarded_insert(F, body, bi):
+                n_entry += 1
+                entry_fns.add(path)
+                R.instance("FIRST", "%s: insert guarded by the absent outcome of a membership test on the same map" % path)
+            elif MAP_DENY.search(tgt) or MAP_DENY.search(f["path"]):
                 short = re.sub(r"<.*?>", "", "::".join(tgt.split("::")[-2:]))
                 R.violation("FIRST", "%s|%s" % (path, short), "%s writes a result map through %s: only the vacant arm of the entry API keeps the first definition of a duplicated id" % (path, tgt), function=path, file=fl, line=ln)
             elif re.search(r"HashMap::<.*>::entry$", tgt):
